@@ -3,11 +3,11 @@ import FuModel.Props.C07
 /-!
 # C16 — -printf renders escapes, directives, width and justification faithfully
 
-Model: `Find/PrintfFmt.lean` (`FormatStringParser`), `Find/Run.lean` namespace `Printf'`
+Model: `Find/PrintfFmt.lean` (`FormatStringParser`), `Find/Run.lean` namespace `PrintfR`
 (`format_directive`, `Printf::print`).  Reference renderer used as the predicate:
 `Spec/PrintfRef.lean`.
 -/
-namespace FuModel.Find.Run.Printf'
+namespace FuModel.Find.Run.PrintfR
 open FuModel.Find.Printf FuModel.Find.Walk
 
 /-- Literal text — multi-byte characters included — is copied verbatim, components are written in
@@ -111,4 +111,4 @@ example : (parse "%-5p|\\n%%\\101".toList).map (·.1) =
 example : parse "%é".toList = some ([.lit ['é']], false) ∧ parse "\\é".toList = none ∧
     parse "%99999999999999999999d".toList = none := by decide
 
-end FuModel.Find.Run.Printf'
+end FuModel.Find.Run.PrintfR
